@@ -119,6 +119,10 @@ def variants(c, seed=0):
     out.append(dict(c, variant="shifted", positions=(pos + g).tolist()))
     # the way structures usually arrive: lattice and positions typed with 7 decimals (1/3 -> 0.3333333, a sqrt(3)/2 -> 2.5547750)
     out.append(dict(c, variant="typed7", lattice=np.round(np.array(c["lattice"], float), 7).tolist(), positions=np.round(pos, 7).tolist()))
+    # coordinates known to 4 decimals only (a structure read from a paper): every atom is off its ideal site by a few 1e-5 in
+    # fractional units, i.e. ~1e-4 Angstrom, and the user passes symprec=1e-3 so that the symmetry is still found
+    nz = np.random.default_rng(2000 + seed).uniform(-3e-5, 3e-5, pos.shape)
+    out.append(dict(c, variant="noisy4", positions=(pos + nz).tolist(), symprec=1e-3))
     return out
 
 
